@@ -97,7 +97,7 @@ def s2(tier):
                 for route in grammar.ROUTES:
                     if ctx == 'result_attr' and route == 'partial':
                         continue        # a partial object has no attribute every callee result has
-                    if ctx == 'ifelse':
+                    if ctx in ('ifelse', 'nested_ifelse_arg'):
                         # two calls: same callee shape twice, and a second callee with one more optional parameter
                         other = c + (('zz', KWO, True),) if not space.has(c, VK) else c
                         if space.has(c, VK):
@@ -143,7 +143,18 @@ def s3(tier):
     return out
 
 
+def s4(tier):
+    """the callee is only the default value of a parameter, discovery is entered with known arguments (bound method)."""
+    out = []
+    for (o, c) in pairs(tier):
+        for cs in four_argshapes(o, c):
+            for ctx in ('return', 'assign', 'nested', 'arg_of_call'):
+                out.append(Prog(o, (cs,), ctx, 'method_default', None))
+    return out
+
+
 def all_slices(tier):
     return [('S1 shapes x argument shapes (return, global)', s1(tier)),
             ('S2 contexts x routes', s2(tier)),
-            ('S3 taints, foreign and combined stars', s3(tier))]
+            ('S3 taints, foreign and combined stars', s3(tier)),
+            ('S4 callee given as a parameter default', s4(tier))]
